@@ -54,6 +54,8 @@ func EvalUpdate(n Node, env *Environment) Object {
 		return evalUpdateFunctionCall(node, env)
 	case *Identifier:
 		return evalIdentifier(node, env, true)
+	case *evaluatedExpression:
+		return node.value
 	}
 
 	return newError("unsupported expression: %s", n.String())
@@ -782,12 +784,35 @@ func evalUpdateExpression(node *UpdateExpression, env *Environment) Object {
 		return newError(node.TokenLiteral() + " expression must have at least one action")
 	}
 
+	// every right-hand side reads the item as it is before the update,
+	// so all of them are evaluated before the first action is applied
+	actions := make([]*ActionExpression, 0, len(node.Expressions))
+
 	for _, act := range node.Expressions {
 		action, ok := act.(*ActionExpression)
 		if !ok {
 			return newError("invalid infix action")
 		}
 
+		if action.Token.Type == REMOVE {
+			actions = append(actions, action)
+
+			continue
+		}
+
+		val := EvalUpdate(action.Right, env)
+		if isError(val) {
+			return val
+		}
+
+		actions = append(actions, &ActionExpression{
+			Token: action.Token,
+			Left:  action.Left,
+			Right: &evaluatedExpression{Expression: action.Right, value: val},
+		})
+	}
+
+	for _, action := range actions {
 		result := evalAction(action, env)
 		if isError(result) {
 			return result
